@@ -232,14 +232,14 @@ variable {α : Type} [Inhabited α]
 
 /-- inside the lane every mode returns the lane itself -/
 theorem ext_inside (l r : Nat) (mode : PadMode α) (x : List α) (i : Int)
-    (h : 0 ≤ i ∧ i < (x.length : Int)) : Model.ext l r mode x i = x.getD i.toNat default :=
+    (h : 0 ≤ i ∧ i < (x.length : Int)) : Tensor.ext l r mode x i = x.getD i.toNat default :=
   Stack.ext_inside l r mode x i h
 
 /-- `edge`: positions are clamped to `[0, T-1]` (Kaldi's frame clamping) -/
 theorem ext_edge (l r : Nat) (x : List α) (i : Int) :
-    Model.ext l r .edge x i
+    Tensor.ext l r .edge x i
       = x.getD (if i < 0 then 0 else if i ≥ (x.length : Int) then x.length - 1 else i.toNat) default := by
-  unfold Model.ext
+  unfold Tensor.ext
   by_cases h : 0 ≤ i ∧ i < (x.length : Int)
   · simp only [h, and_self, if_true]
     rw [if_neg (by omega), if_neg (by omega)]
@@ -251,21 +251,21 @@ theorem ext_edge (l r : Nat) (x : List α) (i : Int) :
 
 /-- `constant`: `constant_values[0]` on the left, `constant_values[1]` on the right -/
 theorem ext_constant (l r : Nat) (cl cr : α) (x : List α) (i : Int) :
-    (i < 0 → Model.ext l r (.constant cl cr) x i = cl) ∧
-    ((x.length : Int) ≤ i → Model.ext l r (.constant cl cr) x i = cr) := by
+    (i < 0 → Tensor.ext l r (.constant cl cr) x i = cl) ∧
+    ((x.length : Int) ≤ i → Tensor.ext l r (.constant cl cr) x i = cr) := by
   constructor
   · intro h
-    unfold Model.ext
+    unfold Tensor.ext
     simp only [show ¬ (0 ≤ i ∧ i < (x.length : Int)) by omega, if_false, h, if_true]
   · intro h
-    unfold Model.ext
+    unfold Tensor.ext
     simp only [show ¬ (0 ≤ i ∧ i < (x.length : Int)) by omega, if_false,
       show ¬ i < 0 by omega]
 
 /-- `wrap`: periodic with period `T`, at every position -/
 theorem ext_wrap (l r : Nat) (x : List α) (i : Int) :
-    Model.ext l r .wrap x i = x.getD (i % (x.length : Int)).toNat default := by
-  unfold Model.ext
+    Tensor.ext l r .wrap x i = x.getD (i % (x.length : Int)).toNat default := by
+  unfold Tensor.ext
   by_cases h : 0 ≤ i ∧ i < (x.length : Int)
   · simp only [h, and_self, if_true]
     rw [Int.emod_eq_of_lt h.1 h.2]
@@ -274,20 +274,20 @@ theorem ext_wrap (l r : Nat) (x : List α) (i : Int) :
 /-- `reflect` (even): periodic with period `2(T-1)`, mirrored without repeating the edge sample;
 a single sample is repeated (NumPy's legacy behaviour) -/
 theorem ext_reflect (l r : Nat) (x : List α) (i : Int) :
-    (x.length = 1 → Model.ext l r .reflect x i = x.getD 0 default) ∧
-    (2 ≤ x.length → Model.ext l r .reflect x i =
+    (x.length = 1 → Tensor.ext l r .reflect x i = x.getD 0 default) ∧
+    (2 ≤ x.length → Tensor.ext l r .reflect x i =
       x.getD (if i % (2 * ((x.length : Int) - 1)) < (x.length : Int) then i % (2 * ((x.length : Int) - 1))
               else 2 * ((x.length : Int) - 1) - i % (2 * ((x.length : Int) - 1))).toNat default) := by
   constructor
   · intro h1
-    unfold Model.ext
+    unfold Tensor.ext
     by_cases h : 0 ≤ i ∧ i < (x.length : Int)
     · simp only [h, and_self, if_true]
       congr 1; omega
     · simp only [h1, Nat.cast_one] at h ⊢
       simp only [h, if_false, if_true]
   · intro h2
-    unfold Model.ext
+    unfold Tensor.ext
     by_cases h : 0 ≤ i ∧ i < (x.length : Int)
     · simp only [h, and_self, if_true]
       rw [Int.emod_eq_of_lt h.1 (by omega), if_pos h.2]
@@ -296,10 +296,10 @@ theorem ext_reflect (l r : Nat) (x : List α) (i : Int) :
 
 /-- `symmetric` (even): periodic with period `2T`, mirrored with the edge sample repeated -/
 theorem ext_symmetric (l r : Nat) (x : List α) (i : Int) (hT : 0 < x.length) :
-    Model.ext l r .symmetric x i =
+    Tensor.ext l r .symmetric x i =
       x.getD (if i % (2 * (x.length : Int)) < (x.length : Int) then i % (2 * (x.length : Int))
               else 2 * (x.length : Int) - 1 - i % (2 * (x.length : Int))).toNat default := by
-  unfold Model.ext
+  unfold Tensor.ext
   by_cases h : 0 ≤ i ∧ i < (x.length : Int)
   · simp only [h, and_self, if_true]
     rw [Int.emod_eq_of_lt h.1 (by omega), if_pos h.2]
@@ -366,7 +366,7 @@ theorem stack_value (c : Stack α) (x out : Tensor α) (axis : Int) (ip : Bool) 
     (t < T → valid x.shape src = true ∧ out.get idx = x.get src) ∧
     (T ≤ t → ∃ mode, c.padMode = some mode ∧ T % c.numVectors ≠ 0 ∧
         t < T + (c.numVectors - T % c.numVectors) ∧
-        out.get idx = some (Model.ext 0 (c.numVectors - T % c.numVectors) mode (x.lane ta src) (t : Nat))) := by
+        out.get idx = some (Tensor.ext 0 (c.numVectors - T % c.numVectors) mode (x.lane ta src) (t : Nat))) := by
   obtain ⟨hr, hne, rfl⟩ := Stack.apply_inv c x out axis ip hn h
   intro ta ax F T t src
   obtain ⟨hget0, hvsrc0, htlt0, hvx0⟩ := Stack.result_get c x axis hn hr hne idx hv
@@ -574,15 +574,15 @@ example : Deltas.padError { exDc with numDeltas := 1 } (⟨[0, 2], []⟩ : Tenso
   decide +kernel
 
 -- the padding modes, beyond one period
-example : (List.range 9).map (fun k => Model.ext 0 0 .reflect ([1, 2, 3] : List ℚ) ((k : Int) - 4))
+example : (List.range 9).map (fun k => Tensor.ext 0 0 .reflect ([1, 2, 3] : List ℚ) ((k : Int) - 4))
       = [1, 2, 3, 2, 1, 2, 3, 2, 1] ∧
-    (List.range 9).map (fun k => Model.ext 0 0 .symmetric ([1, 2, 3] : List ℚ) ((k : Int) - 4))
+    (List.range 9).map (fun k => Tensor.ext 0 0 .symmetric ([1, 2, 3] : List ℚ) ((k : Int) - 4))
       = [3, 3, 2, 1, 1, 2, 3, 3, 2] ∧
-    (List.range 9).map (fun k => Model.ext 0 0 .wrap ([1, 2, 3] : List ℚ) ((k : Int) - 4))
+    (List.range 9).map (fun k => Tensor.ext 0 0 .wrap ([1, 2, 3] : List ℚ) ((k : Int) - 4))
       = [3, 1, 2, 3, 1, 2, 3, 1, 2] ∧
-    (List.range 7).map (fun k => Model.ext 0 0 (.constant 7 9) ([1, 2, 3] : List ℚ) ((k : Int) - 2))
+    (List.range 7).map (fun k => Tensor.ext 0 0 (.constant 7 9) ([1, 2, 3] : List ℚ) ((k : Int) - 2))
       = [7, 7, 1, 2, 3, 9, 9] ∧
-    (List.range 7).map (fun k => Model.ext 0 0 .edge ([1, 2, 3] : List ℚ) ((k : Int) - 2))
+    (List.range 7).map (fun k => Tensor.ext 0 0 .edge ([1, 2, 3] : List ℚ) ((k : Int) - 2))
       = [1, 1, 1, 2, 3, 3, 3] := by decide +kernel
 
 private def exS2 : Tensor ℚ := ⟨[2, 5], [0, 1, 2, 3, 4, 5, 6, 7, 8, 9]⟩
